@@ -10,11 +10,11 @@ the solver produced.
 Findings (standard mechanism: executed and judged on every run, matched against KNOWN_FINDINGS.json by signature):
   c07-edge:F3  'success' judged from the stale initial defect when the defect computation is skipped
                (default skip_defect_calc, min_iter >= max_iter): the true residual violates the tolerances
-  c07-edge:F6  BiCGStab applies the preconditioner BEFORE _set_initial_defect; if it fails, 'aborted' is returned with
-               get_num_iter()/get_def_*() still showing the previous solve (outcome depends on the history)
   c07-edge:F7  (double-precision stream) FGMRES divides by the norm of the new Arnoldi vector without a happy-breakdown
                test: on a system whose Krylov space is smaller than krylov_dim (e.g. the identity) it returns 'aborted'
                with a NaN iterate
+  (F-C07-6, BiCGStab applying the preconditioner before _set_initial_defect so that an early 'aborted' kept the previous
+  solve's counters, is fixed in /repo (3d5803c40); its input stays in the corpus as a regression line.)
   (F-C07-2, BiCGStab's half-step test returning 'success' before min_iter iterations, is fixed in /repo (784169477);
   its input stays in the corpus as a regression line.)
   (F-C07-1, BiCGStab returning Status::undefined on an already converged initial defect, is fixed in /repo; its input
@@ -708,16 +708,14 @@ def oracle_solve(case, out):
             return tag + "get_status() differs from the returned status"
         if st in (0, 1):
             return tag + "returned status %s" % ST_NAMES[st]
-        early_abort = (sc.kind == "bicgstab" and st == 3 and not r["hist"])
         xs = [Fr(0)] * sc.n if mode == "a" else x0
         # start vector: ignored by apply (defect of the zero vector), honoured by correct
         d0_true = norm2(b) if mode == "a" else norm2(sc.resid(b, x0))
-        if not early_abort:
-            if r["d0"] != d0_true:
-                return tag + "initial defect %s, but ||F(b - A x0)|| = %s for the start vector that should be used" % (
-                    r["d0"], d0_true)
-            if not r["hist"] or r["hist"][0] != r["d0"]:
-                return tag + "defect history does not start with the initial defect"
+        if r["d0"] != d0_true:
+            return tag + "initial defect %s, but ||F(b - A x0)|| = %s for the start vector that should be used" % (
+                r["d0"], d0_true)
+        if not r["hist"] or r["hist"][0] != r["d0"]:
+            return tag + "defect history does not start with the initial defect"
         # aborted is only legitimate if the preconditioner failed
         if st == 3 and not sc.fail_at and not (sc.m is not None and SENTINEL in (list(b) + list(x0))):
             return tag + "aborted without a failing preconditioner"
@@ -726,14 +724,6 @@ def oracle_solve(case, out):
             return tag + "SPD system in exact arithmetic: expected the dense reference solution within %d " \
                          "iterations, got status %s after %d iterations" % (len(free), ST_NAMES[st], r["iters"])
         true_res = norm2(sc.resid(b, r["x"]))
-        if early_abort:
-            if r["x"] != xs:
-                return tag + "iterate changed although the solver aborted before the first iteration"
-            if r["iters"] != 0 or r["d0"] not in (Fr(0), d0_true):
-                # the control members still hold the previous solve's values
-                edge = edge or F6_MSG % (k, r["iters"], fs(r["d0"]))
-            bump(STATS["terminal_status"], sc.kind + ":aborted")
-            continue
         it = r["iters"]
         halfk = sc.kind in HALF_STEP_KINDS
 
@@ -858,9 +848,6 @@ def oracle_solve(case, out):
                 continue
             if mi == "c" and xi != xj:
                 continue
-            if sc.kind == "bicgstab" and (res[i]["status"] == 3 or res[j]["status"] == 3) and \
-                    (not res[i]["hist"] or not res[j]["hist"]):
-                continue  # control state of an early abort is the previous solve's
             STATS["pair_checks"] += 1
             if res[i]["raw"] != res[j]["raw"]:
                 return "solves %d and %d (%s, same right-hand side%s) gave different results on the same solver object" % (
@@ -1027,8 +1014,6 @@ def signature(case, out, why):
 F7_MSG = "[c07-edge:F7] solve %d (double): FGMRES does not handle the happy breakdown (Arnoldi vector of norm 0 when the " \
          "Krylov space is exhausted): division by (nearly) zero, 'aborted'/'diverged' with a non-finite or huge iterate on a " \
          "nonsingular system"
-F6_MSG = "[c07-edge:F6] solve %d: BiCGStab aborted before _set_initial_defect (preconditioner failed on the initial " \
-         "defect) and still reports the previous solve's num_iter=%d / def_init=%s: the outcome depends on the history"
 F3_MSG = "[c07-edge:F3] solve %d: 'success' after %d iteration(s) with skipped defect computation (skip_defect_calc, " \
          "min_iter >= max_iter): the true residual %s of the returned iterate violates the tolerances; the status was " \
          "judged from the stale stored defect %s"
@@ -1087,7 +1072,7 @@ CORPUS = [
     # F-C07-1 (fixed in /repo, c0d18e9d5): BiCGStab on an already converged initial defect -> success, 0 iterations
     "solve bicgstab 2 2 1 1 3 none none 1/1000000 1000000000 0 1000000000 1000000000000 19/20 0 10 0 1 1 2 "
     "c 1 1 3 4 0 a 7 7 0 0 0",
-    # F-C07-6 (open finding c07-edge:F6): BiCGStab aborts before _set_initial_defect; counters of the previous solve stay
+    # F-C07-6 (fixed in /repo 3d5803c40, regression line): preconditioner failure on the initial defect of the 2nd solve
     "solve bicgstab 2 2 1 1 3 none mat 1 0 0 1 0 1/1000000 1000000000 0 1000000000 1000000000000 19/20 0 6 0 1 1 3 "
     "a 0 0 1 2 0 a 0 0 7777 1 0 a 0 0 1 2 0",
     # observations F-C07-4 (0/0 forced by min_iter) and F-C07-5 (initial check ignores tol_abs)
